@@ -2448,8 +2448,11 @@ impl<'a> CodeGenerator<'a> {
                                 return acc;
                             }
 
-                            let index = if let Some(tag) =
-                                constr.decorators.iter().find_map(|d| match &d.kind {
+                            let index = if let Some(tag) = constr
+                                .decorators
+                                .iter()
+                                .chain(data_type.decorators.iter())
+                                .find_map(|d| match &d.kind {
                                     DecoratorKind::Tag { value, .. } => Some(value),
                                     _ => None,
                                 }) {
